@@ -30,6 +30,10 @@ type emitter struct {
 	okRet map[*ssa.BasicBlock]bool // blocks from which a success return is reachable
 	paths int
 	err   error
+	// local accumulators (strings.Builder / bytes.Buffer) whose whole content is handed to the
+	// writer by one flush call: writes into them count as writes to the writer
+	accFlush map[ssa.CallInstruction]bool // the flush calls (emit nothing themselves)
+	accRead  map[ssa.Value]bool           // the String()/Bytes() calls (emit nothing)
 }
 
 // emissionGrammar returns the alternatives (one per success path) joined by " | ".
@@ -39,6 +43,8 @@ func (p *Program) emissionGrammar(fn *ssa.Function, writerParam int) (string, er
 	}
 	e := &emitter{p: p, fn: fn, tb: p.TB(fn), taint: map[ssa.Value]bool{fn.Params[writerParam]: true},
 		loops: map[*ssa.BasicBlock]*natLoop{}, rl: map[*ssa.BasicBlock]*RangeLoop{}, okRet: map[*ssa.BasicBlock]bool{}}
+	e.accFlush, e.accRead = map[ssa.CallInstruction]bool{}, map[ssa.Value]bool{}
+	e.findAccumulators()
 	// values built from the writer: conversions and the results of calls that receive it
 	for changed := true; changed; {
 		changed = false
@@ -150,6 +156,20 @@ func (e *emitter) item(c ssa.CallInstruction, subst map[string]*Term) ([]string,
 		return nil, false
 	}
 	name := short(e.tb.resolvedCalleeName(cc))
+	if e.accFlush[c] {
+		return []string{}, true // its content was emitted piece by piece into the accumulator
+	}
+	if v := c.Value(); v != nil && e.accRead[v] {
+		return nil, false
+	}
+	if len(all) == 2 && e.taint[all[0]] && e.wrapperName(all[0]) == "" && (strings.HasSuffix(name, ").WriteByte") || strings.HasSuffix(name, ").WriteRune")) {
+		if k, ok := constInt(all[1]); ok && k >= 0 && k < 128 {
+			return []string{"L:" + string(rune(k))}, true
+		}
+	}
+	if strings.HasSuffix(name, "strings.Builder).Grow") || strings.HasSuffix(name, "bytes.Buffer).Grow") {
+		return nil, false
+	}
 	// constructors that only wrap the writer emit nothing themselves
 	if v := c.Value(); v != nil && e.taint[v] {
 		return nil, false
@@ -688,4 +708,88 @@ func (e *emitter) succsKnowing(b, prev *ssa.BasicBlock, nn map[ssa.Value]bool) (
 	learn := make([]ssa.Value, 2)
 	learn[nonNilEdge] = x
 	return b.Succs, learn
+}
+
+// findAccumulators marks local strings.Builder / bytes.Buffer variables that are only written to
+// and then handed to the writer whole, once, with nothing written into them afterwards.
+func (e *emitter) findAccumulators() {
+	for _, b := range e.fn.Blocks {
+		for _, in := range b.Instrs {
+			al, ok := in.(*ssa.Alloc)
+			if !ok {
+				continue
+			}
+			ts := typeString(al.Type())
+			if ts != "*strings.Builder" && ts != "*bytes.Buffer" {
+				continue
+			}
+			var writes []ssa.CallInstruction
+			var reads []*ssa.Call
+			okUse := true
+			for _, ref := range *al.Referrers() {
+				c, isCall := ref.(*ssa.Call)
+				if !isCall {
+					if _, dbg := ref.(*ssa.DebugRef); dbg {
+						continue
+					}
+					okUse = false
+					break
+				}
+				if len(c.Call.Args) == 0 || c.Call.Args[0] != ssa.Value(al) {
+					okUse = false
+					break
+				}
+				n := calleeName(&c.Call)
+				switch {
+				case strings.HasSuffix(n, ").Write"), strings.HasSuffix(n, ").WriteString"), strings.HasSuffix(n, ").WriteByte"), strings.HasSuffix(n, ").WriteRune"):
+					writes = append(writes, c)
+				case strings.HasSuffix(n, ").String"), strings.HasSuffix(n, ").Bytes"):
+					reads = append(reads, c)
+				case strings.HasSuffix(n, ").Grow"), strings.HasSuffix(n, ").Len"):
+				default:
+					okUse = false
+				}
+			}
+			if !okUse || len(reads) != 1 || len(writes) == 0 {
+				continue
+			}
+			rd := reads[0]
+			// the content goes to the writer in one call
+			var flush ssa.CallInstruction
+			nUse := 0
+			for _, ref := range *rd.Referrers() {
+				if _, dbg := ref.(*ssa.DebugRef); dbg {
+					continue
+				}
+				nUse++
+				if c, isCall := ref.(ssa.CallInstruction); isCall {
+					n := calleeName(c.Common())
+					cc := c.Common()
+					switch {
+					case n == "io.WriteString" && len(cc.Args) == 2 && e.taint[cc.Args[0]] && cc.Args[1] == ssa.Value(rd):
+						flush = c
+					case cc.IsInvoke() && cc.Method.Name() == "Write" && e.taint[cc.Value] && len(cc.Args) == 1 && cc.Args[0] == ssa.Value(rd):
+						flush = c
+					}
+				}
+			}
+			if flush == nil || nUse != 1 {
+				continue
+			}
+			// nothing is written into it after the flush, and every write can reach the flush
+			after := e.p.Reach([]Loc{locAfter(flush.(ssa.Instruction))}, nil)
+			late := false
+			for _, w := range writes {
+				if after[w.(ssa.Instruction)] {
+					late = true
+				}
+			}
+			if late {
+				continue
+			}
+			e.taint[al] = true
+			e.accFlush[flush] = true
+			e.accRead[rd] = true
+		}
+	}
 }
